@@ -105,6 +105,17 @@ class _Map(object):
         return 0
 
 
+def _kpos(M, el, name, headings, rows):
+    """position of a step: by its text -- or, for a twin step (prog["dupsteps"]: a step that repeats the text of the step
+    before it), by the number in its one-cell table | k | n |"""
+    try:
+        if [str(h) for h in (headings or [])] == ["k"] and len(rows or []) == 1:
+            return M.pos(el, "own %d" % int(str(list(rows[0])[0])))
+    except (ValueError, TypeError, IndexError):
+        pass
+    return M.pos(el, name)
+
+
 def _json(path, M):
     out = {"present": path is not None, "valid": False, "features": []}
     if path is None:
@@ -124,7 +135,8 @@ def _json(path, M):
             steps = []
             for k, s in enumerate(x.get("steps", [])):
                 res = s.get("result") or {}
-                steps.append({"pos": k + 1 if typ == "background" else M.pos(el, s.get("name")),
+                tb = s.get("table") or {}
+                steps.append({"pos": k + 1 if typ == "background" else _kpos(M, el, s.get("name"), tb.get("headings"), tb.get("rows")),
                               "match": "match" in s, "status": res.get("status") or ""})
             fe["els"].append({"type": typ, "el": el, "status": x.get("status") or "", "steps": steps})
         out["features"].append(fe)
@@ -154,10 +166,12 @@ def _readback(path, data, M):
                 allsteps = list(s.all_steps)
                 for st in own:
                     if st.table is not None:
-                        out["tables"].append({"el": sid, "pos": M.pos(sid, st.name), "headings": [str(c) for c in st.table.headings],
+                        out["tables"].append({"el": sid, "pos": _kpos(M, sid, st.name, st.table.headings, [r.cells for r in st.table.rows]), "headings": [str(c) for c in st.table.headings],
                                               "rows": [[str(c) for c in r.cells] for r in st.table.rows]})
                 fe["scens"].append({"el": sid, "npre": len(allsteps) - len(own),
-                                    "steps": [{"pos": M.pos(sid, st.name), "status": st.status.name} for st in own]})
+                                    "steps": [{"pos": _kpos(M, sid, st.name, st.table.headings if st.table is not None else None,
+                                                                    [r.cells for r in st.table.rows] if st.table is not None else None),
+                                               "status": st.status.name} for st in own]})
             out["features"].append(fe)
     except Exception as x:                                  # noqa
         out["exc"] = type(x).__name__
@@ -174,7 +188,8 @@ def _tables(data, M, env):
                 continue
             el = M.loc(x.get("location", ""))
             for s in x.get("steps", []):
-                pos = M.pos(el, s.get("name"))
+                tb0 = s.get("table") or {}
+                pos = _kpos(M, el, s.get("name"), tb0.get("headings"), tb0.get("rows"))
                 if "table" in s:
                     t = s["table"] or {}
                     out["json"].append({"el": el, "pos": pos, "headings": [str(c) for c in t.get("headings", [])],
@@ -199,14 +214,23 @@ def _plain(path, M):
     if path is None:
         return out
     cur = 0
-    for line in _read(path).splitlines():
+    text_lines = _read(path).splitlines()
+    for i, line in enumerate(text_lines):
         h = _HEAD.match(line)
         if h:
             cur = M.scen(h.group(1))
             continue
         m = _STEP.match(line)
         if m:
-            out["lines"].append({"scen": cur, "pos": M.pos(cur, "%s %s" % (m.group(1), m.group(2))), "status": m.group(3)})
+            pos = M.pos(cur, "%s %s" % (m.group(1), m.group(2)))
+            # a twin step prints its one-cell table | k | n | below its line (behind the error message of a failing step)
+            j = i + 1
+            while j + 1 < len(text_lines) and not _STEP.match(text_lines[j]) and not _HEAD.match(text_lines[j]):
+                if re.match(r"^\|\s*k\s*\|$", text_lines[j].strip()) and re.match(r"^\|\s*\d+\s*\|$", text_lines[j + 1].strip()):
+                    pos = M.pos(cur, "own %d" % int(text_lines[j + 1].strip().strip("| ")))
+                    break
+                j += 1
+            out["lines"].append({"scen": cur, "pos": pos, "status": m.group(3)})
     return out
 
 
